@@ -759,6 +759,7 @@ impl<'a, 'b> InternalDelphiLogicalLineParser<'a, 'b> {
         if let Some(TT::Keyword(KK::Of)) = self.get_current_token_type() {
             self.next_token(); // Of
         } else {
+            self.context.pop();
             return;
         }
         self.finish_logical_line();
